@@ -635,8 +635,64 @@ def instance_notifiers(ctx, res):
                               f"the instance trait's notifier list is "
                               f"`{v[:60]}`, not a new list: handlers added on "
                               f"one instance would fire for all")
+    # a class-level trait (class dictionary / resolved wildcard) is handed
+    # out only when the caller did not ask for an instance trait
+    ipar = [q.name for q in facts.params("get_trait")
+            if (q.type or "").strip() == "int"]
+    if len(ipar) != 1:
+        raise AnalysisError("get_trait: the `instance` mode parameter")
+    ipar = ipar[0]
+    shared_ret = 0
+    for p in paths:
+        if p.outcome[0] != "RETURN":
+            continue
+        rv = p.outcome[1]
+        if "ctrait_dict" not in rv and "get_prefix_trait(" not in rv:
+            continue
+        shared_ret += 1
+        lo, hi = -10**9, 10**9
+        for it in p.trace:
+            if it[0] != "atom":
+                continue
+            m = re.fullmatch(r"\((-?\w+) (==|!=|<=|>=|<|>) (-?\w+)\)", it[1])
+            if not m:
+                continue
+            a, op, b = m.groups()
+            if b == ipar and re.fullmatch(r"-?\d+", a):
+                a, b = b, a
+                op = {"<": ">", ">": "<", "<=": ">=", ">=": "<="}.get(op, op)
+            if a != ipar or not re.fullmatch(r"-?\d+", b):
+                continue
+            k = int(b)
+            if not it[2]:
+                op = {"==": "!=", "!=": "==", "<": ">=", ">=": "<",
+                      ">": "<=", "<=": ">"}[op]
+            if op == "==":
+                lo, hi = max(lo, k), min(hi, k)
+            elif op == "<":
+                hi = min(hi, k - 1)
+            elif op == "<=":
+                hi = min(hi, k)
+            elif op == ">":
+                lo = max(lo, k + 1)
+            elif op == ">=":
+                lo = max(lo, k)
+        if "shared-ret" not in seen:
+            ok = hi <= 0
+            if not ok:
+                seen.add("shared-ret")
+            res.oblige(ok, "get_trait:class-trait-for-instance-request",
+                       f"{CREL}:{p.lines[-1]}",
+                       f"get_trait returns the class-level trait "
+                       f"`{rv[:50]}` on a path where `{ipar}` may be "
+                       f"positive (an instance trait was requested): "
+                       f"handlers the caller adds to it fire for every "
+                       f"object of the class", [f"{CREL}:{l}" for l in
+                                                p.lines[-6:]])
+    if shared_ret == 0:
+        raise AnalysisError("get_trait: no path returning a class trait")
     res.instance("get_trait", facts.loc(facts.func("get_trait")),
-                 creating_paths=n)
+                 creating_paths=n, class_trait_returns=shared_ret)
     if n == 0:
         raise AnalysisError("get_trait: no instance-trait creating path")
     if not seen:
@@ -1293,3 +1349,104 @@ def remove_trait_rule(ctx, res):
                f"clean-up through attribute assignment/deletion, which the "
                f"class-level trait governs once the instance trait is gone")
     res.floor(1)
+
+
+# ---------------------------------------------------------------------------
+# C13.define-once: `_add_class_trait` (the worker of add_class_trait, called
+# for the class and then for every subclass) never replaces an existing
+# definition: a store into a class-level trait table under the name is reached
+# only through the "absent" outcome of a membership test of that table - a
+# subclass's own declaration keeps governing its objects.
+
+def _table_roots(fn):
+    """local -> text of the class table it was read from"""
+    out = {}
+    for a in ast.walk(fn):
+        if isinstance(a, ast.Assign) and len(a.targets) == 1 \
+                and isinstance(a.targets[0], ast.Name):
+            out[a.targets[0].id] = norm(a.value)
+    return out
+
+
+@rule("C13.define-once", ["C13"],
+      "_add_class_trait stores into a class-level trait table only on paths "
+      "where a membership test found the name absent from that table (a "
+      "subclass's own declaration is never replaced by a trait added to a "
+      "base class)")
+def define_once(ctx, res):
+    from ..cfg import enumerate_paths
+    from ..pycfg import build_cfg
+    repo = get_pyrepo(ctx)
+    mod = repo.module(HT)
+    fn = repo.inlined(HT, "HasTraits._add_class_trait")
+    ps = [a.arg for a in fn.args.args]
+    namep = ps[1]
+    g = build_cfg(fn, "_add_class_trait")
+    roots = _table_roots(fn)
+
+    def table_of(e):
+        """the class table an expression denotes: 'prefix', 'class' or None"""
+        t = norm(e)
+        t = roots.get(t, t) if isinstance(e, ast.Name) else t
+        if "PrefixTraits" in t:
+            return "prefix"
+        if "ClassTraits" in t or "BaseTraits" in t:
+            return "class"
+        return None
+
+    def absent_test(a, lab):
+        """(table, present?) for a membership test of the name"""
+        if isinstance(a, ast.Compare) and len(a.ops) == 1:
+            op, l, r = a.ops[0], a.left, a.comparators[0]
+            if isinstance(op, (ast.In, ast.NotIn)) and norm(l) == namep:
+                tb = table_of(r)
+                if tb:
+                    return tb, isinstance(op, ast.In) == (lab == "T")
+            if isinstance(op, (ast.Is, ast.IsNot)) and norm(r) == "None" \
+                    and isinstance(l, ast.Call) \
+                    and isinstance(l.func, ast.Attribute) \
+                    and l.func.attr == "get" and l.args \
+                    and norm(l.args[0]) == namep:
+                tb = table_of(l.func.value)
+                if tb:
+                    return tb, isinstance(op, ast.IsNot) == (lab == "T")
+        return None
+
+    stores = {}
+    for path in enumerate_paths(g, max_paths=20000):
+        known = {}
+        for nid, lab in path:
+            nd = g.nodes[nid]
+            a = nd.ast
+            if a is None:
+                continue
+            if nd.kind == "cond":
+                r = absent_test(a, lab)
+                if r:
+                    known[r[0]] = r[1]
+                continue
+            if isinstance(a, ast.Assign):
+                for t in a.targets:
+                    if isinstance(t, ast.Name) and t.id == namep:
+                        # `name = name[:-1]`: tests so far were about the
+                        # old spelling
+                        known = {}
+                    if isinstance(t, ast.Subscript) and norm(t.slice) == namep:
+                        tb = table_of(t.value)
+                        if tb:
+                            st = stores.setdefault(
+                                (tb, norm(t), a.lineno), set())
+                            st.add(known.get(tb))
+    if not stores:
+        raise AnalysisError("_add_class_trait: no class-table store found")
+    for (tb, text, ln), outcomes in sorted(stores.items()):
+        key = f"_add_class_trait:{text}"
+        res.instance(key, f"{HT}:{ln}")
+        res.oblige(outcomes == {False}, key + ":absent", f"{HT}:{ln}",
+                   f"`{text} = ...` is reached "
+                   + ("after the membership test found the name *present*"
+                      if True in outcomes else
+                      "without a membership test of that table")
+                   + ": an existing definition (for a subclass: its own "
+                   "declaration) is replaced by the added trait")
+    res.floor(3)
